@@ -454,6 +454,17 @@ def r4_r5_consumers_enqueuers(ctx, f, rep):
                           e['args'][0] == ('ref', q.self_field('updates'), True), 'C15-R4', b.nname,
                           'updates.fill only under needs_piggyback && !piggyback_only_active', site=e['span'],
                           construct='fill-guard')
+                # ... and only the bytes left and the 16-bit count limit how many pending updates ride along: the item cap
+                # handed to fill is u16::MAX itself, not an estimate that can be smaller than what still fits (S194)
+                cap = e['args'][2]
+                if cap[0] == 'call':
+                    cc = {c['id']: c for c in p.calls()}.get(cap[1])
+                    if cc is not None and cc['res'].endswith('::into') or (cc is not None and cc['decl'].endswith('From::from')):
+                        cap = cc['args'][0]
+                cap = q.peel(cap)
+                rep.check(q.is_const(cap, 65535), 'C15-R4', b.nname, 'the number of updates fill may piggyback is capped by the '
+                          'count field only (u16::MAX): no pending update that still fits is left out', site=e['span'],
+                          construct='fill-cap', facts={'cap': q.describe(p, e['args'][2], b)})
     rep.floor('C15-R4', n, 1, 'fill occurrences')
     # the other direction: a datagram of a kind that piggybacks goes out without the count field and the updates only
     # when there is no room for the count plus one byte (remaining <= 2) - no other veto (a larger reserve, a kind singled
